@@ -474,6 +474,72 @@ pub fn run(thorough: bool) -> Report {
         label.lock().unwrap().clear();
     });
     rep.merge(r4);
+    // ---- privacy layer round trip: what PrivKey::encrypt emits for a request, a second key object decrypts back
+    let r5 = par_shards(2, |i, rep, beat, label| {
+        use crate::c01::KEY;
+        use gufo_snmp::verif::{PrivKey, SnmpPriv};
+        let alg = (i + 1) as u8;
+        *label.lock().unwrap() = format!("privacy round trip alg {}", alg);
+        let engine: &[u8] = b"\x80\x00\x1f\x88\x04eng";
+        let mut n = 0u64;
+        let mk = || -> Option<PrivKey> {
+            let mut k = PrivKey::new(alg).ok()?;
+            k.as_localized(&KEY).ok()?;
+            Some(k)
+        };
+        let (mut enc, mut dec) = match (mk(), mk()) {
+            (Some(a), Some(b)) => (a, b),
+            _ => return,
+        };
+        for k in 0..40usize {
+            for l in 2..=18usize {
+                let mut strs: Vec<String> = (0..k).map(|j| format!("1.3.6.1.2.1.2.2.1.10.{}", j + 1)).collect();
+                strs.push(oid_of_len(l).iter().map(|x| x.to_string()).collect::<Vec<_>>().join("."));
+                for (boots, time) in [(1i64, 2i64), (0x7fffffff, 0x7fffffff), (0, 0)] {
+                    let r = guarded(|| -> Result<(), String> {
+                        let vars: Vec<SnmpOid> = strs.iter().map(|s| SnmpOid::try_from(s.as_str()).map_err(|_| "oid refused".to_string())).collect::<Result<_, _>>()?;
+                        let want: Vec<Vec<u8>> = vars.iter().map(|o| Vec::<u8>::from(o)).collect();
+                        let sp = ScopedPdu { engine_id: engine, pdu: SnmpPdu::GetRequest(SnmpGet { request_id: 0x1234 + k as i64, vars }) };
+                        let (ct, salt) = match enc.encrypt(&sp, boots as u32, boots as u32 ^ time as u32) {
+                            Ok((c, s)) => (c.to_vec(), s.to_vec()),
+                            Err(_) => return Err("encrypt refused a request that fits".into()),
+                        };
+                        let usm = UsmParameters { engine_id: engine, engine_boots: boots, engine_time: (boots as u32 ^ time as u32) as i64, user_name: b"u", auth_params: &[], privacy_params: &salt };
+                        let back = dec.decrypt(&ct, &usm).map_err(|_| format!("own ciphertext of {} octets (scoped PDU with {} OIDs) rejected by decrypt", ct.len(), want.len()))?;
+                        if back.engine_id != engine {
+                            return Err("context engine id changed".into());
+                        }
+                        match back.pdu {
+                            SnmpPdu::GetRequest(g) => {
+                                let got: Vec<Vec<u8>> = g.vars.iter().map(|o| Vec::<u8>::from(o)).collect();
+                                if g.request_id != 0x1234 + k as i64 || got != want {
+                                    return Err("request-id / OIDs changed through encrypt+decrypt".into());
+                                }
+                            }
+                            _ => return Err("PDU type changed".into()),
+                        }
+                        Ok(())
+                    });
+                    n += 1;
+                    let problem = match r {
+                        Ok(Ok(())) => continue,
+                        Ok(Err(e)) => e,
+                        Err(p) => format!("panic: {}", p),
+                    };
+                    rep.violation(
+                        &format!("privacy-roundtrip/{}: {}", if alg == 1 { "des" } else { "aes" }, crate::first_clause(&problem)),
+                        format!("{} OIDs + one of {} arcs, boots {} time {}: {}", k, l, boots, time, problem),
+                        format!("{{\"kind\": \"privacy\", \"alg\": {}, \"k\": {}, \"l\": {}}}", alg, k, l),
+                    );
+                }
+            }
+            beat.fetch_add(1, Ordering::Relaxed);
+        }
+        rep.count("privacy_roundtrips", n);
+        rep.count("evaluations", n);
+        label.lock().unwrap().clear();
+    });
+    rep.merge(r5);
     rep.sample(format!("{{\"int\": -32767, \"reference\": {}}}", jstr(&hex(&rb::enc_int(-32767)))));
     rep.sample(format!("{{\"oid\": \"2.39.4294967295.16384\", \"reference\": {}}}", jstr(&hex(&rb::enc_oid(&[2, 39, 4294967295, 16384])))));
     rep
